@@ -192,7 +192,12 @@ class PostgresTransaction(StoreTransaction):
                 )
                 owner_row = cur.fetchone()
                 owner_gone = owner_row is None
-                owner_terminal = owner_row is not None and WorkflowStatus[owner_row["status"]].is_complete
+                # A NOT_STARTED owner was re-armed by a jump or a restart and holds
+                # nothing (see the SQLite twin): its claim may be taken over as well.
+                owner_status = WorkflowStatus[owner_row["status"]] if owner_row is not None else None
+                owner_terminal = owner_status is not None and (
+                    owner_status.is_complete or owner_status == WorkflowStatus.NOT_STARTED
+                )
                 if owner_gone or owner_terminal:
                     cur.execute(
                         """
